@@ -80,11 +80,22 @@ def exports_cut(t):
     return False
 
 
+def has_control_var(t):
+    """a variable at the control level of t: `(V ; G)` in a clause body means `(call(V) ; G)`, but
+    call((V ; G)) converts the body when V is bound — to an if-then-else if V = (C -> T), to a real cut
+    if V = ! — so wrapping such a goal in call/1 is not an identity."""
+    if t[0] == 'v':
+        return True
+    if t[0] == 's' and t[1] in (',', ';', '->') and len(t[2]) == 2:
+        return has_control_var(t[2][0]) or has_control_var(t[2][1])
+    return False
+
+
 def wrap_calls(b):
     """every conjunct of the body's top-level conjunction that cannot cut the clause => call(G)."""
     if b[0] == 's' and b[1] == ',' and len(b[2]) == 2:
         return S(',', wrap_calls(b[2][0]), wrap_calls(b[2][1]))
-    if b == TRUE or exports_cut(b):
+    if b == TRUE or exports_cut(b) or has_control_var(b):
         return b
     return S('call', b)
 
@@ -250,7 +261,7 @@ def run(ctx):
         for c, r in zip(cases, rep):
             c["case_seed"] = r["case_seed"]
     else:
-        n = 120 if tier == "quick" else 2500
+        n = 120 if tier == "quick" else 1400
         n = int(os.environ.get("C08_N", n))
         import random
         cases = [directed(d["id"]) for d in C07.directed_cases()]
